@@ -60,6 +60,7 @@ func (cacheEngine) Decode(b []byte) (any, error) {
 }
 
 var cacheKinds = []int64{1, 1, 5, 5, 0, 3, 10002, 30000, 30000, 30001, 20001, 7}
+var cacheEdgeKinds = []int64{9999, 10000, 10000, 19999, 19999, 20000, 29999, 30000, 39999, 39999, 40000, 65535}
 var cacheDs = []string{"", "a", "b:c"}
 
 // build resolves references into tags; events are pure functions of the case.
@@ -203,10 +204,14 @@ func genCacheEvents(t *rapid.T, c *CacheCase, nev int) {
 		var e cacheEv
 		e.Author = rapid.IntRange(0, 2).Draw(t, "author")
 		e.Kind = rapid.SampledFrom(cacheKinds).Draw(t, "kind")
+		if rapid.IntRange(0, 7).Draw(t, "edgekind") == 0 {
+			// the first and last kind of every class range
+			e.Kind = rapid.SampledFrom(cacheEdgeKinds).Draw(t, "ekind")
+		}
 		if c.AvoidEphemeral && ref.ClassOf(e.Kind) == ref.Ephemeral {
 			e.Kind = 1
 		}
-		e.CreatedAt = int64(rapid.IntRange(1, 6).Draw(t, "created_at"))
+		e.CreatedAt = int64(rapid.IntRange(0, 6).Draw(t, "created_at"))
 		e.Content = fmt.Sprintf("c%d", i)
 		if ref.ClassOf(e.Kind) == ref.Addressable {
 			dk := rapid.IntRange(0, 5).Draw(t, "dkind")
